@@ -408,6 +408,10 @@ func (rc *rewardsCreatorV2) computeTopUpRewards(totalToDistribute *big.Int, tota
 
 	// topUpReward:= (2*k/pi)*atan(x/p)
 	topUpRewards, _ := big.NewFloat(0).Mul(big.NewFloat(res1), res2).Int(nil)
+	if topUpRewards.Cmp(k) > 0 {
+		// (2/pi)*atan(x/p) <= 1, floating point rounding must not push the result over the limit k
+		topUpRewards.Set(k)
+	}
 	log.Debug("computeTopUpRewards", "topUpRewards", topUpRewards.String())
 
 	return topUpRewards
